@@ -75,11 +75,26 @@ print("DONE")
 '''
 
 
-def _run(script, stdin_text, optimize=False, timeout=600):
+def _die_with_parent():
+    """children must not outlive the runner (an orphan that loops would burn a core for hours)"""
+    try:
+        import ctypes
+        import signal
+
+        ctypes.CDLL("libc.so.6", use_errno=True).prctl(1, signal.SIGKILL)  # PR_SET_PDEATHSIG
+    except Exception:  # pylint: disable=broad-except
+        pass
+
+
+def _run(script, stdin_text, optimize=False, timeout=240):
     env = dict(os.environ, PYTHONPATH=core.REPO_SRC)
     env.pop("PYTHONOPTIMIZE", None)
     cmd = [sys.executable] + (["-O"] if optimize else []) + ["-c", script]
-    r = subprocess.run(cmd, input=stdin_text, capture_output=True, text=True, env=env, timeout=timeout, check=False)
+    try:
+        r = subprocess.run(cmd, input=stdin_text, capture_output=True, text=True, env=env, timeout=timeout, check=False, preexec_fn=_die_with_parent)
+    except subprocess.TimeoutExpired:
+        # wall clock: inconclusive by rule, never a violation (the same inputs are judged in-process by the step count)
+        raise core.HarnessError(f"child interpreter did not finish within {timeout}s (inconclusive)") from None
     lines = r.stdout.strip().splitlines()
     if not lines or lines[-1] != "DONE":
         raise core.HarnessError(f"child interpreter failed: {r.stderr[-400:]}")
